@@ -26,6 +26,73 @@ Theorem C19_parallel_kernels :
    "_fteik._ray2d._ray2d_vectorized"; "_fteik._ray3d._ray3d_vectorized"].
 Proof. vm_compute. reflexivity. Qed.
 
+(* The decorator is `kwargs.update(defaults); return jit( *args, **kwargs )` (the translator accepts no other shape and
+   records it as ("decorator","combination","defaults-override")): a default REPLACES what a kernel's own decorator
+   passes under the same key.  The default keys are exactly these four, so no kernel-level request (the
+   `boundscheck=True` of the two apparent-velocity interpolators, the `parallel=True` of the list kernels) is silently
+   overridden, and every kernel is compiled with the documented fast-math set. *)
+Definition keys_of (who : string) : list string :=
+  map (fun t => snd (fst t)) (filter (fun t => String.eqb (fst (fst t)) who) flags).
+
+Definition effective (who what : string) : list string :=
+  match lookup "decorator" "combination" with
+  | ["defaults-override"] => match lookup "default" what with [] => lookup who what | l => l end
+  | _ => []
+  end.
+
+Fixpoint leqb (a b : list string) : bool :=
+  match a, b with
+  | [], [] => true
+  | x :: a', y :: b' => String.eqb x y && leqb a' b'
+  | _, _ => false
+  end.
+Lemma leqb_eq a b : leqb a b = true -> a = b.
+Proof.
+  revert b; induction a as [|x a IH]; intros [|y b] H; cbn in H; try congruence.
+  apply andb_prop in H. destruct H as [Hx Hr]. apply String.eqb_eq in Hx. subst. f_equal. apply IH; exact Hr.
+Qed.
+
+Definition is_kernel (who : string) : bool := negb (String.eqb who "default" || String.eqb who "decorator").
+
+Theorem C19_default_keys_are_exactly : keys_of "default" = ["nopython"; "nogil"; "fastmath"; "cache"].
+Proof. vm_compute. reflexivity. Qed.
+
+Theorem C19_requested_boundscheck_reaches_numba :
+  effective "_interp._vinterp2d._vinterp2d" "boundscheck" = ["True"] /\
+  effective "_interp._vinterp3d._vinterp3d" "boundscheck" = ["True"].
+Proof. vm_compute. split; reflexivity. Qed.
+
+Definition chk (t : string * string * string) : bool :=
+  let '(who, what, v) := t in
+  (negb (is_kernel who) || (String.eqb what "signature" ||
+   (leqb (effective who what) [v] &&
+    (leqb (effective who "fastmath") ["afn,arcp,contract,ninf,nsz"] &&
+     leqb (effective who "boundscheck") (lookup who "boundscheck")))))%bool.
+
+Lemma chk_all : forallb chk flags = true.
+Proof. vm_compute. reflexivity. Qed.
+
+Theorem C19_no_kernel_option_is_overridden :
+  forall who what v, In (who, what, v) flags -> is_kernel who = true -> what <> "signature" ->
+    effective who what = [v] /\ effective who "fastmath" = ["afn,arcp,contract,ninf,nsz"] /\ effective who "boundscheck" = lookup who "boundscheck".
+Proof.
+  intros who what v Hin Hk Hs.
+  pose proof (proj1 (forallb_forall chk flags) chk_all _ Hin) as H.
+  unfold chk in H. rewrite Hk in H. change (negb true) with false in H. rewrite orb_false_l in H.
+  destruct (String.eqb what "signature") eqn:E.
+  - apply String.eqb_eq in E. contradiction.
+  - rewrite orb_false_l in H.
+    apply andb_prop in H. destruct H as [H1 H]. apply andb_prop in H. destruct H as [H2 H3].
+    split; [|split]; apply leqb_eq; assumption.
+Qed.
+
+Example C19_overridden_premises_inhabited :
+  In ("_interp._vinterp2d._vinterp2d", "boundscheck", "True") flags /\ is_kernel "_interp._vinterp2d._vinterp2d" = true.
+Proof. vm_compute. split; [|reflexivity]. repeat (first [left; reflexivity | right]). Qed.
+
 Print Assumptions C19_fastmath_set_is_the_documented_one.
+Print Assumptions C19_default_keys_are_exactly.
+Print Assumptions C19_requested_boundscheck_reaches_numba.
+Print Assumptions C19_no_kernel_option_is_overridden.
 Print Assumptions C19_default_options.
 Print Assumptions C19_parallel_kernels.
